@@ -69,11 +69,32 @@ def inflation_sums():
 _cache = {}
 
 
+def elementwise_loops():
+    '''depth-2 pointwise compositions with sign / parity subtleties, consumed ELEMENT BY ELEMENT in a loop (the take moves into the
+    composition: exponent vectors become loop-dependent scalars) and through the loop-dependent chunk constructors'''
+    a = T.A('a', (2,))
+    PW = {'powvec', 'powc', 'sqrt', 'abs', 'negative', 'sign', 'reciprocal'}
+    l1 = [t for t in T.grow([a], [], PW, binary=False)]
+    l2 = [t for t in T.grow(l1, [], PW, binary=False)]
+    out = []
+    for X in l2:
+        try:
+            if T.typeof(X) != ((2,), 'f'):
+                continue
+        except T.IllTyped:
+            continue
+        elem = ('getl', (0,), X, T.LOOP_M)
+        out.append(('loopsum', ('m', 2), elem))
+        rag = list(T.grow([X], [], {'raggedcat', 'raggedsum'}, binary=False))
+        out.extend([t for t in rag if t[0] == 'raggedcat'][:1] + [t for t in rag if t[0] == 'raggedsum'][1:2])
+    return out
+
+
 def terms(tier='quick'):
     if 'all' not in _cache:
         seen = set()
         out = []
-        for fam, ts in (('cluster', cluster_products()), ('ndindex', nd_index_terms()), ('inflsum', inflation_sums())):
+        for fam, ts in (('cluster', cluster_products()), ('ndindex', nd_index_terms()), ('inflsum', inflation_sums()), ('elemloop', elementwise_loops())):
             for t in ts:
                 if t not in seen:
                     try:
